@@ -283,6 +283,9 @@ def c17_files(cs):
     elif vis == "third_party":
         files["/vws17/venv/lib/python3.11/site-packages/tp/plugin.py"] = FIX_TXT
     head = ["import pytest", "data = {}"]
+    if vis == "same_file_late":
+        files[root + "/t/conftest.py"] = "import pytest\n\n\n@pytest.fixture\ndef zz_other():\n    return 0\n"
+        head += ["", "", "def test_early(a):", "    zz_other.value", "", "", "@pytest.fixture", "def fx():", "    return 1"]
     if vis == "same_file":
         head += ["", "", "@pytest.fixture", "def fx():", "    return 1"]
     if vis == "module_level_name":
@@ -328,7 +331,10 @@ def c17_files(cs):
            "param_kwonly": "a, *, fx", "param_kwonly_default": "a, *, fx=\"x\"", "param_vararg": "a, *fx", "param_kwarg": "a, **fx"}.get(bind, "a")
     if bind in ("param", "param_default", "param_annotated", "param_posonly", "param_kwonly", "param_kwonly_default", "param_vararg", "param_kwarg"):
         body = use_stmt
-    lines = head + [("async " if is_async else "") + "def test_t(%s):" % sig] + ["    " + l for l in body] + ["", ""]
+    deco = ['@pytest.mark.usefixtures("fx")'] if bind == "usefixtures_mark" else []
+    if bind == "usefixtures_mark":
+        body = use_stmt
+    lines = head + deco + [("async " if is_async else "") + "def test_t(%s):" % sig] + ["    " + l for l in body] + ["", ""]
     text = "\n".join(lines) + "\n"
     # position of the use: the occurrence of `fx` inside the use expression
     pos = None
